@@ -347,6 +347,38 @@ let c13_prim data chunks eof fail reqs =
   | OK l -> "OK " ^ String.concat "," (List.map hb l)
   | Err -> "ERR" | Panic -> "PANIC"
 
+(* scripts of SubScope / Read / back-to-parent over a scheduled reader: the chain of nested
+   LimitedReaders (IOChain.v).  A child's chain is its own counter :: the parent's chain, the
+   counters are shared, so going back up drops the head. *)
+let c13_prim_chain data chunks eof fail scope script =
+  let data = bytes_of_hex data in
+  let ints s = if s = "-" then [] else List.map (fun x -> nh x) (String.split_on_char ',' s) in
+  let u = ref { u_data = data; u_chunks = ints chunks; u_eof_with_data = (eof = "1");
+                u_fail_after = (if fail = "-" then None else Some (nh fail)) } in
+  let scope = nh scope in
+  let lims = ref [scope] in
+  let frames = ref [(N0, scope)] in
+  let parts = ref [] in
+  let stop = ref false in
+  List.iter (fun q ->
+      if not !stop then begin
+        let arg () = nh (String.sub q 1 (String.length q - 1)) in
+        match q.[0], !frames with
+        | 's', (i, mx) :: _ ->
+          let c = arg () in
+          if N.ltb (N.sub mx i) c then (parts := "ERR" :: !parts; stop := true)
+          else (frames := (N0, c) :: !frames; lims := c :: !lims; parts := "sub" :: !parts)
+        | 'u', _ :: rest -> frames := rest; lims := List.tl !lims; parts := "up" :: !parts
+        | 'r', (i, mx) :: rest ->
+          (match dr_read_io_chain !u !lims i mx (arg ()) with
+           | OK (((bs, u'), lims'), i') ->
+             u := u'; lims := lims'; frames := (i', mx) :: rest; parts := hb bs :: !parts
+           | Err -> parts := "ERR" :: !parts; stop := true
+           | Panic -> parts := "PANIC" :: !parts; stop := true)
+        | _ -> failwith "bad script"
+      end) (String.split_on_char ',' script);
+  String.concat "," (List.rev !parts)
+
 (* the stream delivers only the first [got] bytes of data although scope = len(data) *)
 let c13_read kind zh tys data got =
   let t = ty_of tys in
@@ -498,6 +530,7 @@ let dispatch set_cfg cur_h cur_zh (op : string) (args : string list) : string =
   | "dynu", [text] -> dynu text
   | "bstr", [bs] -> hb (bytes_string (bytes_of_hex bs))
   | "c13p", [data; chunks; eof; fail; reqs] -> c13_prim data chunks eof fail reqs
+  | "c13pc", [data; chunks; eof; fail; scope; script] -> c13_prim_chain data chunks eof fail scope script
   | "c13r", [kind; t; data; got] -> set_cfg "sha"; c13_read kind !cur_zh t data got
   | "c13w", [kind; t; v; budget] -> set_cfg "sha"; c13_write kind !cur_zh t v budget
   | "c13wc", [kind; t; v; budget; chunk] -> set_cfg "sha"; c13_write_chunked kind !cur_zh t v budget chunk
